@@ -1,4 +1,5 @@
 import O4.Lemmas.HandshakeGenuine
+import O4.Lemmas.Obfs4EndToEnd
 import O4.Lemmas.HandshakeClient
 import O4.Generated.Facts.Obfs4
 import O4.Lemmas.Obfs4Ref
@@ -730,6 +731,29 @@ theorem client_deadline_structure :
     "Conn.SetDeadline" ∉ O4.Facts.Obfs4.obfs4Conn_clientHandshake_calls ∧
     "Conn.SetReadDeadline" ∉ O4.Facts.Obfs4.obfs4Conn_clientHandshake_calls ∧
     "Conn.SetDeadline" ∈ O4.Facts.Obfs4.obfs4Conn_serverHandshake_calls := by
+  decide
+
+/-- **a genuine request of EVERY legal padding length is accepted** by the server's parser — the
+    bound is inclusive: with the maximum padding (`clientMaxPadLength` = 8128) the request is exactly
+    `maxHandshakeLength` = 8192 bytes long and still accepted (`E2E.GenuineC`: representative decodes
+    to the client's key, `clientMinPadLength ≤ |P_C| ≤ clientMaxPadLength`, the client's hour within
+    ±1 of the server's, not a replay, ntor succeeds).  Proof: `E2E.srv_accept`; the whole read loop in
+    any chunking: `C01.server_session_any_chunking`. -/
+theorem genuine_request_any_padding_accepted (P : Prims) (hP : HmacLen P) (s0 : Server) (hs0 : s0.cache = none)
+    (C : E2E.GenuineC P s0) (f : RF.Filter) (H now : Int)
+    (hwin : ∃ off ∈ ([0, -1, 1] : List Int), C.hour = H + off)
+    (hnr : NotReplay P s0 f H now C.blob C.pos) :
+    (∃ s' f', parseClientHandshake P s0 f H now C.blob = (s', f', .ok C.keySeed)) ∧
+    C.blob.length = clientMinHandshakeLength + C.pad.length ∧ C.blob.length ≤ maxHandshakeLength ∧
+    (C.pad.length = clientMaxPadLength → C.blob.length = maxHandshakeLength) := by
+  have hl := E2E.blobC_len hP hs0 C
+  have hlen : C.blob.length = clientMinHandshakeLength + C.pad.length := by
+    rw [hl]
+    simp only [E2E.GenuineC.pos, representativeLength, markLength, macLength, clientMinHandshakeLength]
+    omega
+  refine ⟨E2E.srv_accept hP hs0 C s0 (Or.inl rfl) f H now hwin hnr, hlen, (E2E.blobC_bounds hP hs0 C).2, ?_⟩
+  intro hmax
+  rw [hlen, hmax]
   decide
 
 end C02
